@@ -62,12 +62,15 @@ def gen_repo_world(t, family):
     w.qualified = family in QUALIFIED
     n = 2 + t.draw(5, "nfiles")
     paths = []
+    # two languages: files f<odd>.n belong to a second registered language (another metamodel instance that does not
+    # declare the model parameters p1/p2); imports cross the language border in both directions
+    w.two_langs = family not in GR and t.chance(1, 4, "two-languages")
     for i in range(n):
         d = "" if i == 0 and not t.chance(1, 4, "main-in-sub") else t.pick(DIRS, "dir")
         if family in SP and i > 0:
             # search-path mode: imported files live next to the importer or on the search path
             d = t.pick(["", "other/", "sub/"], "sp-dir")
-        paths.append(f"{ROOT}/{d}f{i}.m")
+        paths.append(f"{ROOT}/{d}f{i}.{'n' if w.two_langs and i % 2 == 1 else 'm'}")
     for p in paths:
         w.files[p] = FileEnt(p)
         SIMFS.files[p] = ""  # so that glob truth can be computed while generating
@@ -288,7 +291,7 @@ def visible_table(w, p):
 class Sys:
     """The system under test for one run: metamodel + provider + seam listeners."""
 
-    def __init__(self, ctx, w, t, global_repo, wrap):
+    def __init__(self, ctx, w, t, global_repo, wrap, builtin_text=None):
         self.ctx = ctx
         self.w = w
         fam = w.family
@@ -300,7 +303,7 @@ class Sys:
         self.builtin_model = None
         if w.builtin_defs:
             mmb = metamodel_from_str(grammar())
-            self.builtin_model = mmb.model_from_str(" ".join("def " + n for n in w.builtin_defs))
+            self.builtin_model = mmb.model_from_str(builtin_text or " ".join("def " + n for n in w.builtin_defs))
             repo = ModelRepository()
             repo.add_model(self.builtin_model)
             kw["builtin_models"] = repo
@@ -333,6 +336,21 @@ class Sys:
             else:
                 self.prov = base
             self.mm.register_scope_providers({"*.*": self.prov})
+        self.mm2 = None
+        if getattr(w, "two_langs", False):
+            kw2 = {}
+            if "builtin_models" in kw:
+                kw2["builtin_models"] = kw["builtin_models"]
+            self.mm2 = metamodel_from_str(grammar(rrel=rrel), **kw2)
+            base2 = {"plainuri": lambda: sp.PlainNameImportURI(glob_args=gargs),
+                     "fqnuri": lambda: sp.FQNImportURI(glob_args=gargs),
+                     "plainuri-sp": lambda: sp.PlainNameImportURI(search_path=list(SEARCH_PATH)),
+                     "fqnuri-sp": lambda: sp.FQNImportURI(search_path=list(SEARCH_PATH))}.get(fam)
+            if base2 is not None:
+                b2 = base2()
+                self.mm2.register_scope_providers(
+                    {"*.*": ScriptedProvider(b2, self.sched, ctx, on_parsed=self._on_parsed) if wrap else b2})
+            self.register_lang()
         SIMFS.listener = self._fs
         self.fail_objproc_for = None
         self.fail_modelproc_for = None
@@ -353,6 +371,14 @@ class Sys:
 
         self.mm.register_obj_processors({"Def": defproc})
         self.mm.register_model_processor(mproc)
+        if self.mm2 is not None:
+            self.mm2.register_obj_processors({"Def": defproc})
+            self.mm2.register_model_processor(mproc)
+
+    def register_lang(self):
+        if self.mm2 is not None:
+            textx.clear_language_registrations()
+            textx.register_language("lang-n", pattern="*.n", metamodel=self.mm2)
 
     def _fs(self, kind, path, extra):
         if kind == "open":
@@ -476,12 +502,16 @@ def run(ctx):
         "files": {os.path.relpath(p, ROOT): fe.text for p, fe in w.files.items()},
         "imports": {os.path.relpath(k[0], ROOT) + "#" + str(k[1]): [os.path.relpath(x, ROOT) for x in v]
                     for k, v in w.targets.items()},
-        "gr_patterns": w.gr_patterns, "shadows": [(os.path.relpath(a, ROOT), os.path.relpath(b, ROOT), n)
+        "two_languages": getattr(w, "two_langs", False), "gr_patterns": w.gr_patterns, "shadows": [(os.path.relpath(a, ROOT), os.path.relpath(b, ROOT), n)
                                                   for a, b, n in getattr(w, "shadows", [])],
         "ops": [],
     }
     cache = {}  # file -> model object (only with a global repository)
     famtag = fam + ("/repo" if global_repo else "")
+    if prop == "C28" and fam in PLAIN and w.builtin_defs and t.chance(1, 2, "builtin-dup"):
+        op_builtin_dup(ctx, w, t, wrap, famtag)
+        SIMFS.listener = sysm._fs
+        sysm.register_lang()
     nops = 2 + t.draw(5, "nops")
     shapes = set()
     for opi in range(nops):
@@ -603,6 +633,8 @@ def op_load(ctx, prop, sysm, w, F, params, cache, famtag, global_repo, as_str, s
         ctx.probe("cycle-or-self-import")
     if any(len(v) > 1 for v in w.targets.values()):
         ctx.probe("glob-hits-several-files")
+    if getattr(w, "two_langs", False) and len({os.path.splitext(f)[1] for f in new}) > 1:
+        ctx.probe("closure-crosses-the-language-border")
     if before and new and global_repo:
         ctx.probe("partly-cached-closure")
     return True
@@ -766,6 +798,52 @@ def op_corrupt_cycle(ctx, prop, sysm, w, F, params, cache, famtag, global_repo, 
     ok = op_load(ctx, "C18" if prop in ("C18", "C28") else prop, sysm, w, F, params, cache, famtag, global_repo,
                  entry if t.chance(1, 2, "reload-same-entry") else "file", shapes)
     return ok
+
+
+def op_builtin_dup(ctx, w, t, wrap, famtag):
+    """C28: the duplicate names live in a *builtin model* (loaded from a string: no file name); the reference is in
+    a file or in a string model without file name.  The error must be located at the reference."""
+    dup = "x0"
+    s2 = Sys(ctx, w, t, False, wrap, builtin_text=f"\n\n  def {dup}\n def x1\n    def {dup}")
+    files = list(w.files)
+    F = t.pick(files, "bd-file")
+    entry = "anon" if anon_allowed(w, F) and t.chance(1, 2, "bd-anon") else "file"
+    anon = entry == "anon"
+    new = new_files(w, F, {}, anon)
+    scope = list(new) + ([F] if anon else [])
+    hits = [r for r in w.refs if r.owner.file in scope and r.target == "builtin" and r.text == dup]
+    if not hits:
+        return
+    try:
+        do_load(s2, w, F, {"project_root": ROOT} if getattr(w, "gr_relative", False) else {}, entry)
+        ctx.violate("C28", "corrupted-load-succeeds", "builtin-dup/" + famtag, "duplicate names in the builtin model: load succeeded")
+        return
+    except TextXError as e:
+        err = dump_error(e)
+    except Exception as e:
+        ctx.violate("C28", "non-textx-error", "builtin-dup/" + famtag, f"{dump_error(e)}")
+        return
+    ctx.fired("ambiguous-in-builtin-model")
+    ctx.nontrivial = True
+    if "not unique" not in err["msg"]:
+        ctx.violate("C28", "error-kind", "builtin-dup/" + famtag, f"expected a 'not unique' error, got {err['msg']}")
+        return
+    accept = []
+    for r in hits:
+        f = r.owner.file
+        lc = linecol(w.files[f].text, r.pos)
+        if anon and f == F:
+            accept.append((None, lc))
+            if F in new:
+                accept.append((f, lc))
+        else:
+            accept.append((f, lc))
+    got = (err.get("filename"), (err.get("line"), err.get("col")))
+    if got not in accept:
+        clause = "filename" if not any(got[0] == a[0] for a in accept) else "line-col"
+        ctx.violate("C28", clause, "builtin-dup/" + ("anon/" if anon else "") + famtag,
+                    f"error located at {got[0]}:{got[1][0]}:{got[1][1]}, the references to the duplicated builtin name "
+                    f"are at " + " or ".join(f"{a[0]}:{a[1][0]}:{a[1][1]}" for a in accept))
 
 
 def _undo(w, kind, target, sysm):
